@@ -26,8 +26,20 @@ func TestMain(m *testing.M) {
 
 var sources = []gostatsd.Source{"10.0.0.1", "10.0.0.2", "10.0.0.3", ""}
 
-func instFor(s gostatsd.Source) *gostatsd.Instance {
-	return &gostatsd.Instance{ID: gostatsd.Source("i-" + string(s)), Tags: gostatsd.Tags{"az:" + string(s), "cloud"}}
+// instFor draws what a successful lookup for s returns: an instance id with two tags, one tag, or no tags at all
+// (a provider is free to know an instance without having any tag for it).
+func instFor(t *rapid.T, s gostatsd.Source) *gostatsd.Instance {
+	in := &gostatsd.Instance{ID: gostatsd.Source("i-" + string(s))}
+	switch rapid.IntRange(0, 4).Draw(t, "instance-tags") {
+	case 0:
+	case 1:
+		in.Tags = gostatsd.Tags{}
+	case 2:
+		in.Tags = gostatsd.Tags{"cloud"}
+	default:
+		in.Tags = gostatsd.Tags{"az:" + string(s), "cloud"}
+	}
+	return in
 }
 
 func enrich(m *gostatsd.Metric, in *gostatsd.Instance) *gostatsd.Metric {
@@ -215,7 +227,7 @@ func TestCloudStageHistories(t *testing.T) {
 				s := rapid.SampledFrom(open).Draw(t, "source")
 				var in *gostatsd.Instance
 				if rapid.Bool().Draw(t, "found") {
-					in = instFor(s)
+					in = instFor(t, s)
 				}
 				p := park[s]
 				history = append(history, fmt.Sprintf("complete(%q,found=%v)", s, in != nil))
@@ -254,7 +266,7 @@ func TestCloudStageHistories(t *testing.T) {
 				s := rapid.SampledFrom(sources[:3]).Draw(t, "source")
 				var in *gostatsd.Instance
 				if rapid.Bool().Draw(t, "positive") {
-					in = instFor(s)
+					in = instFor(t, s)
 				}
 				ci.Set(s, in)
 				history = append(history, fmt.Sprintf("cacheInsert(%q,%v)", s, in != nil))
